@@ -1,5 +1,6 @@
 import HioModel.Basic.Sexp
 import HioModel.Http.Model
+import HioModel.Http.Service
 open Hio Hio.Sexp Hio.Http
 
 def oBytes (o : Option Bytes) : Sexp := ofOpt ofBytes o
@@ -84,7 +85,7 @@ def handle : Sexp → Sexp
     match bool? hd, streams.mapM (fun c => match c with | .list fr => bytesList fr | _ => none) with
     | some hd, some sts =>
       let one (sts : List (List Bytes)) : Sexp :=
-        let rs := respSeq (({ head := hd } : RespSt), []) sts
+        let rs := respSeq ({ head := hd } : RespSt) sts
         let go := rs.foldl (fun (acc : List Sexp × Nat × Bool) (st : RespSt × Bytes) =>
           if acc.2.2 then acc else
           let s := st.1
@@ -123,15 +124,21 @@ def handle : Sexp → Sexp
         | .list [.list fr, cl] => (match bytesList fr, bool? cl with | some f, some c => some (f, c) | _, _ => none)
         | _ => none) with
     | some bad, some cs =>
-      let rs := cs.map (fun fc => (srvConn bad fc.1, fc.2 || fc.1.length > 1))
-      let esc := rs.findSome? (fun r => match r.1.1.phase with | .escaped c => some c | _ => none)
-      let escS := match esc with | some c => sym c | none => sym "-"
-      if kind == "wsgi" then
-        .list [escS, .list (rs.map fun r =>
-          if r.2 then .list [sym "-", sym "-"]
-          else if !(isLive r.1.1) || (r.1.1.phase == .start && r.1.2.isEmpty) then .list [ofNat (r.1.1.done.filter (fun o => match o with | .ok _ => true | _ => false)).length, ofBool (isLive r.1.1)]
-          else .list [sym "-", sym "-"])]
-      else .list [escS]
+      -- the service loop model: one table entry per connection, the reads one per cycle, then the close
+      let table : List Entry := cs.map (fun fc =>
+        (({ st := (({ badUrls := bad } : ReqSt), []) } : SConn), fc.1.map Arrival.bytes ++ (if fc.2 then [Arrival.closed] else [])))
+      let n := (table.map (fun e => e.2.length)).foldl max 0 + 3
+      let handlers := if kind == "wsgi" then wsgiHandlers else bareHandlers
+      match serverRun handlers (fun _ => true) n table with
+      | .error c => if kind == "wsgi" then .list [sym c, .list []] else .list [sym c]
+      | .ok t =>
+        if kind == "wsgi" then
+          .list [sym "-", .list ((t.zip cs).map fun (e, fc) =>
+            let c := e.1
+            if fc.2 || fc.1.length > 1 then .list [sym "-", sym "-"]
+            else if !(isLive c.st.1) || (c.st.1.phase == .start && c.st.2.isEmpty) then .list [ofNat c.answers, ofBool c.alive]
+            else .list [sym "-", sym "-"])]
+        else .list [sym "-"]
     | _, _ => sym "bad-request"
   | .list [.atom "cli", .list frags, cl] =>
     match bytesList frags, bool? cl with
